@@ -356,6 +356,11 @@ fn degenerate() -> Vec<String> {
     v.push("?\\".to_string());
     v.push("i?(?i)(".to_string());
     v.push("*".repeat(100));
+    for body in ["\u{212a}", "\u{130}", "\u{23a}", "\u{1e9e}", "\u{212a}elvin", "a\u{130}b"] {
+        for form in ["i{}", "i{}*", "i*{}", "i*{}*", "i\"{}\"", "i'{}'", "{}*", "*{}*"] {
+            v.push(form.replace("{}", body));
+        }
+    }
     v.push("?\\w{100}".to_string());
     v.push("?\\w{300}".to_string());
     v.push("?[a-z]{2000}".to_string());
